@@ -82,6 +82,13 @@ func VerifCondSimplify(vars []VerifCondVar, prefs bool, assigned []string, line 
 // into checkAllData.vars, every .if/.elif is checked.  It reports what happened
 // to the line lines[condIndex].
 func VerifCondSimplifyLines(vars []VerifCondVar, lines []string, condIndex int) (res VerifCondResult) {
+	return VerifCondSimplifyFile(vars, "filename.mk", lines, condIndex)
+}
+
+// VerifCondSimplifyFile is VerifCondSimplifyLines for a fragment with the given
+// basename; for "hacks.mk" it does what MkLines.checkAll does before every line
+// (Tools.SeenPrefs = true).
+func VerifCondSimplifyFile(vars []VerifCondVar, basename string, lines []string, condIndex int) (res VerifCondResult) {
 	var out bytes.Buffer
 	res.Panicked = VerifPanic(func() {
 		G = NewPkglint(&out, io.Discard)
@@ -125,9 +132,13 @@ func VerifCondSimplifyLines(vars []VerifCondVar, lines []string, condIndex int) 
 			sb.WriteString(l + "\n")
 		}
 
-		loaded := convertToLogicalLines(NewCurrPath("filename.mk"), sb.String(), true)
+		loaded := convertToLogicalLines(NewCurrPath(NewPath(basename)), sb.String(), true)
 		mklines := NewMkLines(loaded, nil, nil)
+		isHacksMk := mklines.lines.BaseName == "hacks.mk"
 		mklines.ForEach(func(mkline *MkLine) {
+			if isHacksMk {
+				mklines.Tools.SeenPrefs = true // MkLines.checkAll
+			}
 			mklines.Tools.ParseToolLine(mklines, mkline, false, false)
 			if mkline.IsVarassign() && !mklines.indentation.IsConditional() {
 				mklines.checkAllData.vars.Define(mkline.Varname(), mkline)
@@ -143,13 +154,13 @@ func VerifCondSimplifyLines(vars []VerifCondVar, lines []string, condIndex int) 
 			res.NewLine = ml.Line.Text
 		}
 	})
-	res.Fixes, res.Diags = verifC14ParseLog(out.String(), condIndex+2)
+	res.Fixes, res.Diags = verifC14ParseLog(out.String(), basename, condIndex+2)
 	return
 }
 
 // the logged "Replacing %q with %q." of one line number; everything else as diagnostics
-func verifC14ParseLog(log string, lineno int) (fixes [][2]string, diags []string) {
-	prefix := "AUTOFIX: filename.mk:" + strconv.Itoa(lineno) + ": Replacing "
+func verifC14ParseLog(log string, basename string, lineno int) (fixes [][2]string, diags []string) {
+	prefix := "AUTOFIX: " + basename + ":" + strconv.Itoa(lineno) + ": Replacing "
 	for _, l := range strings.Split(log, "\n") {
 		if l == "" {
 			continue
@@ -181,4 +192,14 @@ func VerifMayMatchNumber14(pattern string) (may bool, errText string) {
 		return m, err.Error()
 	}
 	return m, ""
+}
+
+// VerifLoadsPrefs14 exposes LoadsPrefs (util.go) and the basename it switches on.
+func VerifLoadsPrefs14(path string) (loads bool, base string, panicked string) {
+	panicked = VerifPanic(func() {
+		p := NewRelPathString(path)
+		loads = LoadsPrefs(p)
+		base = p.Base().String()
+	})
+	return
 }
